@@ -2,7 +2,7 @@
    _reduceBoundaries (Homology.v): what each step does to the entry function of the matrix, and
    that the block form diag(I_x, M') advances by one at every pivot.  Plain Coq (no ssreflect). *)
 From Coq Require Import String ZArith Bool Arith List Lia.
-From SV Require Import Names Rep Complex Homology.
+From SV Require Import Names ListFacts Rep Complex Homology.
 Import ListNotations.
 Open Scope nat_scope.
 
@@ -14,18 +14,7 @@ Proof.
   intros [HL HF] Hi. rewrite Forall_forall in HF. apply HF. apply nth_In. lia.
 Qed.
 
-(* ---------- set_nth / swap ---------- *)
-Lemma length_set_nth {A} (i : nat) (x : A) (l : list A) : length (set_nth i x l) = length l.
-Proof. revert i; induction l as [|h t IH]; intros [|i]; simpl; auto. Qed.
-
-Lemma nth_set_nth {A} (d : A) (l : list A) : forall i k x,
-  nth k (set_nth i x l) d = if (k =? i) && (i <? length l) then x else nth k l d.
-Proof.
-  induction l as [|h t IH]; intros [|i] [|k] x; simpl; auto.
-  - destruct (k =? i); reflexivity.
-  - rewrite IH. reflexivity.
-Qed.
-
+(* ---------- swap ---------- *)
 Definition sw (x k i : nat) : nat := if i =? x then k else if i =? k then x else i.
 
 Lemma nth_swap {A} (d : A) (l : list A) (i j k : nat) :
@@ -38,8 +27,6 @@ Proof.
     destruct (k =? j) eqn:Ekj; simpl; reflexivity.
 Qed.
 
-Lemma set_nth_nil {A} (i : nat) (x : A) : set_nth i x [] = [].
-Proof. destruct i; reflexivity. Qed.
 Lemma swap_nil {A} (d : A) i j : swap d i j [] = [].
 Proof. unfold swap. now rewrite !set_nth_nil. Qed.
 
